@@ -97,6 +97,8 @@ class Lib:
                 return o.term
             if name == "name":
                 return o.name if o.name is not None else V.Opaque("enum name")
+        if isinstance(o, V.Opaque) and o.what.startswith("container built in a loop") and name in ("append", "extend"):
+            return V.Builtin("method." + name, bound=o)
         if isinstance(o, V.Opaque):
             if ctx.opaque_ok:
                 return V.Opaque(o.what + "." + name)
@@ -439,6 +441,8 @@ class Lib:
 
     def contains(self, ctx, container, item):
         from .symexec import speclib_or
+        if isinstance(container, PyDict) and getattr(container, "opaque", False):
+            raise EngineLimit("read of a dict whose contents are not tracked (symbolic keys)")
 
         if isinstance(container, SymSet):
             return z3.Select(container.term, container_elem(container, item))
@@ -463,6 +467,8 @@ class Lib:
 
     # ------------------------------------------------------------------ subscripts
     def getitem(self, ctx, o, k):
+        if isinstance(o, PyDict) and getattr(o, "opaque", False):
+            raise EngineLimit("read of a dict whose contents are not tracked (symbolic keys)")
         if isinstance(o, V.BytesV):
             from . import bytesmodel
 
@@ -521,8 +527,8 @@ class Lib:
             if ctx.decide(z3.Or(idx < 0, idx >= n)):
                 raise self.raise_ext("IndexError")
             return z3.SubString(o, idx, 1)
-        if isinstance(o, V.Builtin) and o.name.startswith("typing."):
-            return o
+        if isinstance(o, V.Builtin) and (o.name.startswith("typing.") or (o.bound is None and o.name in TYPE_NAMES)):
+            return o  # a type expression such as list[int]
         raise EngineLimit("subscript of %r" % (o,))
 
     def getslice(self, ctx, o, lo, hi):
@@ -555,7 +561,12 @@ class Lib:
 
             return bytesmodel.bytes_setitem(self, ctx, o, k, v)
         if isinstance(o, PyDict):
-            o.items[self.e.hashable(k)] = v
+            try:
+                o.items[self.e.hashable(k)] = v
+            except EngineLimit:
+                o.opaque = True  # symbolic key: the contents of this dict are no longer tracked
+            return
+        if isinstance(o, V.Opaque) and o.what.startswith("container built in a loop"):
             return
         if isinstance(o, SymMap):
             kt = o.kkind.unwrap(k)
@@ -606,6 +617,8 @@ class Lib:
         return n
 
     def bi_len(self, ctx, x):
+        if isinstance(x, PyDict) and getattr(x, "opaque", False):
+            raise EngineLimit("read of a dict whose contents are not tracked (symbolic keys)")
         if isinstance(x, V.BytesV):
             return x.length
         if isinstance(x, V.BytesOf):
@@ -1082,6 +1095,8 @@ class Lib:
 
     # ------------------------------------------------------------------ methods of builtin values
     def call_method(self, ctx, o, name, args, kwargs):
+        if isinstance(o, PyDict) and getattr(o, "opaque", False):
+            raise EngineLimit("read of a dict whose contents are not tracked (symbolic keys)")
         fn = getattr(self, "m_%s_%s" % (self.kind_of(o), name), None)
         if fn is None:
             from . import bytesmodel
@@ -1142,6 +1157,11 @@ class Lib:
 
     def m_groupdict_values(self, ctx, o):
         return V.GroupValues(o)
+
+    def m_other_append(self, ctx, o, x):
+        if isinstance(o, V.Opaque) and o.what.startswith("container built in a loop"):
+            return None
+        raise EngineLimit("append on %r" % (o,))
 
     def m_list_append(self, ctx, o, x):
         self._mutating(ctx, o)
